@@ -102,9 +102,9 @@ func checkSort(scen string, in SortIn) *mc.Violation {
 }
 
 func values(r *mc.Run) []V3 {
-	alpha := "012a~+.-"
+	alpha := "012aA~+.-"
 	if !r.Quick() {
-		alpha = "012a~+.-:"
+		alpha = "012aAz~+.-:"
 	}
 	ups := gen.AllStrings(gen.Chars(alpha), 2)
 	revs := []string{"", "0", "1", "~", "a", "+1", "1a", "01"}
@@ -120,7 +120,7 @@ func values(r *mc.Run) []V3 {
 		}
 	}
 	// longer digit runs (numbers sharing a prefix, trailing and embedded zeros) with and without a revision
-	for _, u := range []string{"10", "100", "1000", "20", "200", "101", "110", "190", "1905", "19001", "1.10", "1.100", "1.20", "2.010", "2.01", "2.1"} {
+	for _, u := range []string{"1rc1", "1RC1", "1Rc1", "1beta", "1Beta", "1ubuntu1", "1Ubuntu1", "1build1", "10", "100", "1000", "20", "200", "101", "110", "190", "1905", "19001", "1.10", "1.100", "1.20", "2.010", "2.01", "2.1"} {
 		for _, e := range []uint{0, 1} {
 			all = append(all, V3{e, u, ""}, V3{e, u, "10"}, V3{e, u, "100"})
 		}
